@@ -399,7 +399,7 @@ class Shelxfile():
             line = line.upper().split('!')[0]  # Ignore comments with "!", see how this performes
             word = line[:4]
             # get RESI:
-            if line.startswith(('END', 'HKLF')) and self.resi:
+            if line.startswith(('END', 'HKLF')) and (self.resi.residue_number != 0 or self.resi.residue_class):
                 # The atoms keep their RESI object, only the current residue ends here:
                 self.resi = RESI(self, ['RESI', '0'])
                 if self.debug or self.verbose:
@@ -412,7 +412,7 @@ class Shelxfile():
                     self.residues.append(self.resi)
                 continue
             # Now collect the PART:
-            if line.startswith(('END', 'HKLF')) and self.part:
+            if line.startswith(('END', 'HKLF')) and self.part.n != 0:
                 # The atoms keep their PART object, only the current part ends here:
                 self.part = PART(self, ['PART', '0'])
                 if self.debug or self.verbose:
